@@ -88,6 +88,15 @@ class Prop(BaseProp):
                 cases.append({"kind": "VerParse", "v": v + d})
         for v in (0, -1, 2 ** 32, rng.randrange(0, 2 ** 32)):
             cases.append({"kind": "VerParse", "v": v})
+        # the same questions after the read-only queries of Version (bip, valid_version, the *_versions lists) were asked
+        # about that version: asking must not change the answer
+        unknown = [VERSIONS[0] + 1, VERSIONS[5] - 1, 0x02aa7ed3, 0x019da462, rng.randrange(0, 2 ** 32)]
+        for v in unknown + [VERSIONS[3], VERSIONS[8]]:
+            cases.append({"kind": "VerParse", "v": v, "pre": True})
+        from btc_hd_wallet.helper import encode_base58_checksum as _enc
+        for v in unknown[:4]:
+            body = bytes([0]) + rb(4) + rb(4) + rb(32) + (b"\x02" + rb(32) if v % 2 else b"\x00" + rb(32))
+            cases.append({"kind": "FromExt", "s": _enc(v.to_bytes(4, "big") + body), "pre": True})
         return cases
 
     def run_impl(self, case):
@@ -96,6 +105,21 @@ class Prop(BaseProp):
         from btc_hd_wallet.wallet_utils import Version
         from btc_hd_wallet.base_wallet import BaseWallet
         k = case["kind"]
+        if case.get("pre"):
+            try:
+                v0 = case["v"] if "v" in case else int.from_bytes(decode_base58_checksum(case["s"])[:4], "big")
+                for q in (Version.bip, Version.valid_version):
+                    try:
+                        q(v0)
+                    except Exception:
+                        pass
+                for q in (Version.mainnet_versions, Version.testnet_versions, Version.prv_versions, Version.pub_versions):
+                    try:
+                        v0 in q()
+                    except Exception:
+                        pass
+            except Exception:
+                pass
         if k == "Ser":
             st = case["start"]
             v = case["v"]
